@@ -367,6 +367,24 @@ def firstdiff(a, b):
     return {'line': min(len(la), len(lb)) + 1, 'generated': '<len %d>' % len(la), 'shipped': '<len %d>' % len(lb)}
 out = {'generic_identical': generic == shipped_generic, 'assemblers_identical': asm == shipped_asm,
        'bytes': [len(shipped_generic), len(shipped_asm)]}
+# the in-process cache is pre-seeded with the shipped classes: every predefined form must be served by the class generated FROM THAT FORM
+import re
+from pyiga import compile as pc
+def class_text(text, name):
+    m = re.search(r'^cdef class %s\(.*?(?=^cdef class |\Z)' % re.escape(name), text, flags=re.S | re.M)
+    return m.group(0).rstrip() if m else None
+wrong = []
+for d in (2, 3):
+    for label, form in (('mass', vform.mass_vf(d)), ('stiffness', vform.stiffness_vf(d)), ('heat_st', vform.heat_st_vf(d)), ('wave_st', vform.wave_st_vf(d)),
+                        ('divdiv', vform.divdiv_vf(d)), ('L2functional', vform.L2functional_vf(d)), ('L2functional physical', vform.L2functional_vf(d, physical=True))):
+        cls = pc.compile_vform(form)
+        served = class_text(shipped_asm, cls.__name__)
+        code = backend.CodeGen(); backend.AsmGenerator({'mass': vform.mass_vf, 'stiffness': vform.stiffness_vf, 'heat_st': vform.heat_st_vf, 'wave_st': vform.wave_st_vf, 'divdiv': vform.divdiv_vf,
+                                                         'L2functional': vform.L2functional_vf, 'L2functional physical': (lambda dd: vform.L2functional_vf(dd, physical=True))}[label](d), cls.__name__, code).generate()
+        expect = class_text(code.result(), cls.__name__)
+        if served is None or expect is None or served != expect:
+            wrong.append('%s_vf(%d) is served by class %s, whose shipped source is not what the generator emits for this form' % (label, d, cls.__name__))
+out['preseeded_cache_wrong'] = wrong
 if not out['generic_identical']: out['generic_diff'] = firstdiff(generic, shipped_generic)
 if not out['assemblers_identical']:
     # independent statements may be emitted in a different order: compare as multisets of lines per class body
@@ -427,6 +445,9 @@ def main():
     run.record_queries('freshness', {'genericasm.pxi byte-identical to generate_generic(1..3)': 'unsat' if fr['generic_identical'] else 'sat',
                                      'assemblers.pyx byte-identical to the generator recipe': 'unsat' if fr['assemblers_identical'] else 'sat'},
                        bound={'comparison': 'text produced today by codegen vs shipped files'})
+    run.record_queries('preseeded-cache', {'every predefined form is served by the class generated from it': 'unsat' if not fr.get('preseeded_cache_wrong') else 'sat'}, bound={'forms': '14 shipped forms'})
+    if fr.get('preseeded_cache_wrong'):
+        run.report('preseeded cache', 'in-process cache pre-seed: %s' % fr['preseeded_cache_wrong'][:3], {'kind': 'fresh'}, True)
     if not fr['generic_identical']:
         run.report('stale genericasm.pxi', 'shipped genericasm.pxi differs from generate_generic(): %s' % fr.get('generic_diff'), {'kind': 'fresh'}, True)
     if not fr['assemblers_identical'] and not fr.get('assemblers_equal_up_to_line_order'):
@@ -460,7 +481,7 @@ def main():
 def replay_file(path):
     w = json.load(open(path))['witness']
     if w.get('kind') == 'fresh':
-        r = realbuild.run_real(FRESH, {}, only=[]); rep = not (r['generic_identical'] and (r['assemblers_identical'] or r.get('assemblers_equal_up_to_line_order')))
+        r = realbuild.run_real(FRESH, {}, only=[]); rep = not (r['generic_identical'] and (r['assemblers_identical'] or r.get('assemblers_equal_up_to_line_order'))) or bool(r.get('preseeded_cache_wrong'))
     else:
         r = realbuild.run_real(GROUND, w, only=[]); rep = r['reproduced']
     print(json.dumps(r)); print('REPRODUCED' if rep else 'NOT-REPRODUCED')
